@@ -259,7 +259,7 @@ func httpErrCls(body []byte) string {
 func trkHTTPAnnounce(c *Ctx, hc httpCase, tc trkCase) {
 	lg := &trkLog{}
 	wl := tc.logic(lg)
-	h := httpfe.VerifHandler(wl, httpfe.Config{AnnounceRoutes: []string{"/announce"}, ScrapeRoutes: []string{"/scrape"},
+	h := httpfe.VerifHandler(wl, httpfe.Config{AnnounceRoutes: []string{"/announce"}, ScrapeRoutes: []string{"/scrape"}, EnableRequestTiming: len(hc.uri)%2 == 0,
 		ParseOptions: httpfe.ParseOptions{AllowIPSpoofing: hc.spoof, RealIPHeader: hc.hdrName, MaxNumWant: hc.maxnw, DefaultNumWant: hc.defnw, MaxScrapeInfoHashes: hc.maxsc}})
 	op := "trk.http_announce uri=" + hx([]byte(hc.uri)) + " " + envArgs(hc) + " hdrname=" + hx([]byte(hc.hdrName)) + " raddr=" + hx([]byte(hc.remoteAddr)) + " " + tc.args()
 	c.Begin(op)
@@ -388,7 +388,7 @@ func trkHTTPScrape(c *Ctx, hc httpCase, tc trkCase) {
 func trkUDP(c *Ctx, uc udpCase, tc trkCase) {
 	lg := &trkLog{}
 	wl := tc.logic(lg)
-	fe, err := udpfe.VerifNewFrontend(wl, udpfe.Config{PrivateKey: udpKey, MaxClockSkew: time.Duration(uc.skew),
+	fe, err := udpfe.VerifNewFrontend(wl, udpfe.Config{PrivateKey: udpKey, MaxClockSkew: time.Duration(uc.skew), EnableRequestTiming: len(uc.pkt)%2 == 0,
 		ParseOptions: udpfe.ParseOptions{AllowIPSpoofing: uc.spoof, MaxNumWant: uc.maxnw, DefaultNumWant: uc.defnw, MaxScrapeInfoHashes: uc.ms}})
 	if err != nil {
 		panic(err)
